@@ -244,7 +244,7 @@ class Constraint:
 
     def get_features(self) -> list[str]:
         """List of features' names involved in the constraint."""
-        features = set()
+        features: dict[str, None] = {}  # a set that keeps the order of first appearance
         stack = [self.ast.root]
         while stack:
             node = stack.pop()
@@ -253,7 +253,7 @@ class Constraint:
             if node.is_unique_term():
                 if (isinstance(node.data, (int, float)) or node.data.startswith("'")):
                     continue
-                features.add(node.data)
+                features[node.data] = None
             else:
                 # any operator node: the aggregate functions (sum, avg, len, floor, ceil) are
                 # neither unary nor binary for the core library, their operands are features too
